@@ -71,6 +71,7 @@ def _gate(run, F, X, pc, vk, spec):
     gen = spec["generic"][vk]
     version = spec["version"][vk]
     found = set()
+    ret_nodes = {}
     from sa.decide import Walker
     from sa.query import make_facts
     # one entry per path to a return of the gate: the atoms of the path's branch conditions (so that `a or (b and c)` guarding one return and
@@ -104,6 +105,7 @@ def _gate(run, F, X, pc, vk, spec):
                 else:
                     raw.append(f.text())
         found.add((frozenset(a.text() for a in atoms), tuple(sorted(raw)), code, norm(v)[:40] if v is not None else "None", id(r)))
+        ret_nodes[id(r)] = lf.node
     # what holds on EVERY path to a given return (its dominating conditions): the part of a path's conditions that is a condition of the verdict
     must_atoms, must_raw = {}, {}
     for x in found:
@@ -157,9 +159,13 @@ def _gate(run, F, X, pc, vk, spec):
     # nothing else: every other return is the validator's negative result or the operation's result
     others = [x for x in found if x[2] not in (gen["format"], gen["invalid_request"], gen["wrong_version"],
                                                gen["unknown_command"])]
+    vcalls = [y for n_ in A.own_nodes(gate) if isinstance(n_, ast.Call) and isinstance(n_.func, ast.Subscript) and norm(n_.func.value) == "self._validation_mappings"
+              for y in g.nodes_of(n_)]
+    run.require(len(vcalls) >= 1, "gate: the validation call self._validation_mappings[command](request) was not identified")
     for x in others:
-        ok = x[3].startswith("{self.ERROR_CODE_KEY: validation_result}") or x[3].startswith("{self.ERROR_CODE_KEY: result}") \
-            or x[3] == "output"
+        # whatever is returned once the command's validator ran is the validator's or the operation's verdict (assembled as rule A.R8 says)
+        rn_ = ret_nodes.get(x[4])
+        ok = rn_ is not None and any(g.dominates(vc, rn_) for vc in vcalls)
         run.check("R1", ok, f"{pc.name}: gate return `{x[3]}` is a validator/operation result",
                   key=f"{pc.name}|gate|extra-return:{x[3]}", where=gate.loc(),
                   message=f"[{pc.name}] the gate has an undocumented verdict `{x[3]}` (code {x[2]})")
